@@ -829,7 +829,12 @@ package zygo
 //@ func (*SexpFunction).ClosingLookupSymbolUntilFunction
 //@ C03 assert captured-walk-one-boundary @before call LookupSymbolUntilFunction[0]: arg3 == 1 && !arg4
 //@ func (*SexpFunction).LookupSymbolInParentChainOfClosures
-//@ C03 assert parent-chain-one-boundary @before call ClosingLookupSymbolUntilFunc[0]: arg3 == 1 && !arg4
+//@ C03 assert parent-chain-one-boundary @before call ClosingLookupSymbolUntilFunc[*]: arg3 == 1 && !arg4
+// ... and with the caller's update request: (set x v) finds x wherever a read finds it, at any
+// depth of the chain, and writes there; the read-only look-ups are not for this route
+//@ C03 assert update-request-is-handed-on @before call ClosingLookupSymbolUntilFunc[*]: arg1 == sym && arg2 == setVal
+//@ callers C03 (*SexpFunction).ClosingLookupSymbolUntilFunction |
+//@ callers C03 (*SexpFunction).ClosingLookupSymbol | (*Stack).LookupSymbolUntilFunction
 
 // A closure snapshot is a stack of its own (never the live stack), it is not
 // larger than the live stack, and its top is the live top scope.
